@@ -420,7 +420,8 @@ def build(spec, cfg):
         model.approx_totals(method='fd', step=1.0, form='forward', step_calc='abs')
     if cfg.get('coloring'):
         if cfg.get('approx_model'):
-            model.declare_coloring(show_summary=False, show_sparsity=False)
+            # same exact finite difference as approx_totals (declare_coloring has its own method / step)
+            model.declare_coloring(method='fd', form='forward', step=1.0, show_summary=False, show_sparsity=False)
         prob.driver.declare_coloring(show_summary=False, show_sparsity=False)
     prob.setup(mode=cfg.get('mode', 'auto'), force_alloc_complex=False)
     return prob
